@@ -50,6 +50,7 @@ class ProfileMachine(Machine):
                 'unit': rng.chance(0.2), 'nan': rng.chance(0.25),
                 'nan_error': rng.chance(0.25),
                 'subpixels': rng.pick([1, 3, 3, 5]),
+                'int_data': rng.chance(0.15), 'int_error': rng.chance(0.1),
                 'int_mask': rng.chance(0.15),
                 'center': rng.pick(['in', 'in', 'in', 'edge', 'out'])}
 
@@ -98,7 +99,14 @@ class ProfileMachine(Machine):
         radii = [float(x) for x in np.round(r0 + np.cumsum([0.0] + steps),
                                             3)]
         err = np.abs(g.normal(1, 0.2, data.shape)) + 0.1
-        if cfg.get('nan_error'):
+        if cfg.get('int_data') and not cfg['nan']:
+            # integer image (same numbers held as int64 / uint16)
+            data = np.round(data * (1 if cfg['kind'] == 'constant' else 3)
+                            ).astype(rng.pick(['int64', 'int32', 'uint16'])
+                                     if data.min() >= 0 else 'int64')
+        if cfg.get('int_error'):
+            err = np.round(err * 3 + 1).astype('int64')
+        elif cfg.get('nan_error'):
             # non-finite error at pixels whose data are finite: they must
             # be masked automatically, with and without a user mask
             for _ in range(rng.randint(1, 3)):
@@ -373,6 +381,8 @@ class ProfileMachine(Machine):
         if cfg['kind'] == 'constant' and self.variant == 'radial' and \
                 not cfg['nan']:
             c = float(dec(st.scene['data']).flat[0])
+            if cfg.get('int_data'):
+                st.stats.probe('constant_integer_image')
             area = st.ref['area']
             exp = c / st.f
             for i, a in enumerate(area):
